@@ -225,7 +225,7 @@ def ref(self):
     return list(self._chromsizes.index)
 ''')
 
-ref('cooler.api.Cooler.info', 'cooler.api', 'metadata read from the collection group', ['C01'])('''
+ref('cooler.api.Cooler.info', 'cooler.api', 'metadata read from the collection group (live: nnz and nbins as stored now, which the balancing spans are cut from)', ['C01', 'C10', 'C11'])('''
 def ref(self):
     with open_hdf5(self.store, **self.open_kws) as h5:
         grp = h5[self.root]
